@@ -5,6 +5,14 @@ componentwise_prediction_rigidity on generated structure lists  vs.  the binary6
 interpretation of the mexp programs of coq/Model/Rigidity.v (inside Coq, vm_compute).
 Oracles: numpy's inverse / singular values of the regularised covariance, passed as hints;
 Coq evaluates the hypothesis residual  max|Xprime*Xinv - I|  on the MODEL's own Xprime.
+
+Round 3 (coq/Model/RigidityExt.v): the SVD (U, s, Vt) of the regularised covariance is a hint
+whose defining equations are evaluated in Coq on the model's matrix (rank_case_ok2, the
+hypotheses of C20_rank_diff); the matrix the implementation hands to numpy.linalg.pinv /
+matrix_rank, the value pinv returns and the rank matrix_rank returns are recorded during the
+call and compared with the model (inter_case_ok); a zero-block family (exactly-zero component
+blocks: both sides must return +inf, C20_denominator_zero); a metamorphic family on the
+implementation alone (rescaling, larger alpha, LPR vs one-component LCPR, inputs unmodified).
 """
 import math
 import re
@@ -46,7 +54,7 @@ def _composition(rng, d):
 
 def gen_case(rng, quick):
     dmax, smax, emax = (8, 8, 6) if quick else (12, 14, 8)
-    d = rng.randint(2, dmax)
+    d = rng.randint(1, dmax)
     fam = rng.choice(FAMILIES)
     scale = 10.0 ** rng.uniform(-3, 3) if rng.random() < 0.5 else 1.0
     basis = [[rng.gauss(0, 1) for _ in range(d)] for _ in range(rng.randint(1, max(1, d - 1)))]
@@ -71,9 +79,71 @@ def gen_case(rng, quick):
     if rank_only:
         alpha = 10.0 ** rng.uniform(-22, -17)
     else:
-        alpha = 10.0 ** rng.uniform(-8, 4)
+        alpha = 10.0 ** rng.uniform(-8, 8)
+    int_dtype = False
+    if fam == "lattice" and rng.random() < 0.3:
+        # integer-dtype arrays handed to the implementation (same values)
+        int_dtype = True
+        if scale != 1.0:
+            train = [[[float(round(x / scale)) for x in r] for r in st] for st in train]
+            test = [[[float(round(x / scale)) for x in r] for r in st] for st in test]
+            scale = 1.0
+    if kind == "lpr" and rng.random() < 0.12:
+        # a test structure without environments: its LPR list is empty
+        test.insert(rng.randint(0, len(test)), [])
     return dict(kind=kind, train=train, test=test, alpha=alpha, comp_dims=comp_dims,
-                family=fam, scale=scale, rank_only=rank_only)
+                family=fam, scale=scale, rank_only=rank_only, int_dtype=int_dtype)
+
+
+def gen_zero_case(rng, quick):
+    """A case of the main domain in which some component blocks are EXACTLY zero: of single
+    test rows (LPR / LCPR entry = 1/0 = +inf) or of every row of a test structure (then also the
+    CPR entry).  All other blocks keep the non-zero margin."""
+    for _ in range(200):
+        c = gen_case(rng, quick)
+        if c["rank_only"] or c["int_dtype"] or any(len(s) == 0 for s in c["test"]):
+            continue
+        d = len(c["train"][0][0])
+        idx = [0]
+        for k in c["comp_dims"]:
+            idx.append(idx[-1] + k)
+        test = [[list(r) for r in s] for s in c["test"]]
+        ncomp = len(c["comp_dims"]) if c["kind"] == "cpr" else 1
+        done = 0
+        for _k in range(rng.randint(1, 3)):
+            si = rng.randrange(len(test))
+            ci = rng.randrange(ncomp)
+            lo, hi = (idx[ci], idx[ci + 1]) if c["kind"] == "cpr" else (0, d)
+            rows = range(len(test[si])) if rng.random() < 0.5 else [rng.randrange(len(test[si]))]
+            for ri in rows:
+                for j in range(lo, hi):
+                    test[si][ri][j] = 0.0
+            done += 1
+        c["test"] = test
+        c["zero_block"] = True
+        if _zero_pattern_clean(c):
+            return c
+    return None
+
+
+def _zero_pattern_clean(c):
+    """every (row, component) block and every (structure mean, component) block is either
+    exactly zero in every contributing entry or non-zero with the generator's margin."""
+    comp = c["comp_dims"] if c["kind"] == "cpr" else [len(c["train"][0][0])]
+    idx = np.cumsum([0] + list(comp))
+    big = max(abs(x) for s in c["train"] + c["test"] for r in s for x in r)
+    for s in c["test"]:
+        a = np.array(s)
+        m = a.mean(axis=0)
+        for k in range(len(comp)):
+            blk = a[:, idx[k]:idx[k + 1]]
+            rs = np.abs(blk).sum(axis=1)
+            if ((rs != 0) & (rs <= 1e-3 * big)).any():
+                return False
+            if c["kind"] == "cpr":
+                if not (blk == 0).all() and abs(m[idx[k]:idx[k + 1]]).sum() <= 1e-3 * big:
+                    return False
+    return True
 
 
 def _blocks_nonzero(train, test, comp_dims):
@@ -83,6 +153,8 @@ def _blocks_nonzero(train, test, comp_dims):
     idx = np.cumsum([0] + comp_dims)
     big = max(abs(x) for s in train + test for r in s for x in r)
     for s in test:
+        if len(s) == 0:
+            continue
         a = np.array(s)
         m = a.mean(axis=0)
         for c in range(len(comp_dims)):
@@ -94,21 +166,67 @@ def _blocks_nonzero(train, test, comp_dims):
 
 
 # ---------------------------------------------------------------- implementation
+class _Recorder:
+    """Records the arguments / results of numpy.linalg.pinv and numpy.linalg.matrix_rank while
+    the implementation runs (the anchored code looks both up through the numpy module at call
+    time), so that the intermediate matrix Xprime, the oracle value Xinv and the rank are
+    observed without a hook in /repo."""
+
+    def __enter__(self):
+        self.pinv, self.rank = [], []
+        self._p, self._r = np.linalg.pinv, np.linalg.matrix_rank
+
+        def pinv(a, *args, **kw):
+            out = self._p(a, *args, **kw)
+            self.pinv.append((np.array(a, dtype=float, copy=True), np.array(out, dtype=float, copy=True)))
+            return out
+
+        def matrix_rank(a, *args, **kw):
+            out = self._r(a, *args, **kw)
+            self.rank.append((np.array(a, dtype=float, copy=True), int(out)))
+            return out
+        np.linalg.pinv, np.linalg.matrix_rank = pinv, matrix_rank
+        return self
+
+    def __exit__(self, *exc):
+        np.linalg.pinv, np.linalg.matrix_rank = self._p, self._r
+        return False
+
+
+def _arrays(case, structs):
+    d = len(case["train"][0][0])
+    dt = np.int64 if case.get("int_dtype") else float
+    return [np.array(s, dtype=dt).reshape(len(s), d) for s in structs]
+
+
 def run_impl(case):
     from skmatter.metrics import componentwise_prediction_rigidity, local_prediction_rigidity
-    tr = [np.array(s, dtype=float) for s in case["train"]]
-    te = [np.array(s, dtype=float) for s in case["test"]]
+    tr, te = _arrays(case, case["train"]), _arrays(case, case["test"])
+    tr0, te0 = [a.copy() for a in tr], [a.copy() for a in te]
     try:
-        with np.errstate(all="ignore"):
+        with np.errstate(all="ignore"), _Recorder() as rc:
             if case["kind"] == "lpr":
                 lpr, rd = local_prediction_rigidity(tr, te, case["alpha"])
-                return dict(lpr=[[float(x) for x in a] for a in lpr], rank_diff=int(rd))
-            cpr, lcpr, rd = componentwise_prediction_rigidity(tr, te, case["alpha"],
-                                                              np.array(case["comp_dims"]))
-            return dict(cpr=[[float(x) for x in r] for r in cpr],
-                        lcpr=[[[float(x) for x in r] for r in a] for a in lcpr], rank_diff=int(rd))
+                out = dict(lpr=[[float(x) for x in a] for a in lpr], rank_diff=int(rd))
+            else:
+                cpr, lcpr, rd = componentwise_prediction_rigidity(tr, te, case["alpha"],
+                                                                  np.array(case["comp_dims"]))
+                out = dict(cpr=[[float(x) for x in r] for r in cpr],
+                           lcpr=[[[float(x) for x in r] for r in a] for a in lcpr], rank_diff=int(rd))
     except Exception as e:  # noqa
         return dict(error=type(e).__name__, error_msg=str(e)[:300])
+    d = len(case["train"][0][0])
+    if rc.pinv and rc.pinv[-1][0].shape == (d, d) and rc.pinv[-1][1].shape == (d, d):
+        out["xprime"] = rc.pinv[-1][0].tolist()
+        out["xinv"] = rc.pinv[-1][1].tolist()
+    elif rc.rank and rc.rank[-1][0].shape == (d, d):
+        out["xprime"] = rc.rank[-1][0].tolist()
+    if rc.rank:
+        out["mrank"] = rc.rank[-1][1]
+    out["inputs_modified"] = not (all(np.array_equal(a, b) for a, b in zip(tr, tr0))
+                                  and all(np.array_equal(a, b) for a, b in zip(te, te0))
+                                  and len(tr) == len(tr0) and len(te) == len(te0))
+    return out
 
 
 def hints(case):
@@ -119,7 +237,7 @@ def hints(case):
     sf = math.sqrt(float(np.mean(Xa ** 2, axis=0).sum()))
     Xs = np.vstack([np.mean(s / sf, axis=0) for s in tr])
     Xp = Xs.T @ Xs + case["alpha"] * np.eye(Xa.shape[1])
-    sv = np.linalg.svd(Xp, compute_uv=False)
+    U, sv, Vt = np.linalg.svd(Xp)
     cond = float(sv.max() / sv.min()) if sv.min() > 0 else float("inf")
     try:
         Xinv = np.linalg.inv(Xp)
@@ -129,7 +247,7 @@ def hints(case):
     tol = sv.max() * d * EPS
     near = bool(np.any((sv > tol / 4) & (sv < tol * 4)))
     return dict(Xinv=Xinv.tolist(), sv=[float(x) for x in sv], cond=cond, rank_near_threshold=near,
-                Xp=Xp, sf=sf)
+                Xp=Xp, sf=sf, U=U.tolist(), Vt=Vt.tolist())
 
 
 def tolerances(cond):
@@ -138,29 +256,72 @@ def tolerances(cond):
     return eps, rtol
 
 
+# Round-3 tolerances (measured on 7 500 thorough-tier cases, seeds 1-5, before fixing them):
+#  SVD_TOL   residuals of U diag(s) Vt = Xprime (relative to s_max), U^T U = I, Vt Vt^T = I:
+#            observed <= 1e-2 * 2^-40
+#  XP_RTOL   max-norm relative deviation of the implementation's Xprime from the model's
+#            (division by sfactor vs multiplication by 1/sfactor, np.mean vs membership
+#            matrix): observed <= 3e-15 = 3e-3 * 2^-40; independent of cond
+#  eps_impl  residual of the oracle hypothesis on the value numpy.linalg.pinv returned (SVD based,
+#            less accurate than inv): observed <= 0.04 * eps_impl
+SVD_TOL = 2.0 ** -40
+XP_RTOL = 2.0 ** -40
+
+
+def eps_impl(cond):
+    return 1e-11 + 1024 * EPS * cond
+
+
 # ---------------------------------------------------------------- Coq case text
 def _structs(ss):
     return "[" + ";\n    ".join(C.fmat(s) for s in ss) + "]"
 
 
 def case_coq(i, case, rec, h):
+    """Three verdict terms per case: (1) outputs + rank_diff as since round 1 (zero-block family:
+    the +inf-aware comparison), (2) rank_diff / rank / dimension from the validated SVD hint,
+    (3) the recorded intermediate state (Xprime entry by entry, hypothesis on pinv's value)."""
     eps, rtol = tolerances(h["cond"])
     name = "c%d" % i
     defn = ("Definition %s : rig_in := {| r_train := %s;\n  r_test := %s;\n  r_alpha := %s; r_xinv := %s |}.\n"
             % (name, _structs(case["train"]), _structs(case["test"]), C.fl(case["alpha"]), C.fmat(h["Xinv"])))
     gated = "true" if h["rank_near_threshold"] else "false"
     d = len(case["train"][0][0])
-    if case["rank_only"]:
+    lcpr_txt = "[" + "; ".join(C.fmat(a) for a in rec.get("lcpr", [])) + "]"
+    if case.get("small_alpha"):
+        v = "true"
+    elif case["rank_only"]:
         v = "rank_case_ok %s %s %d%%nat %s" % (name, C.flist(h["sv"]), rec["rank_diff"], gated)
+    elif case.get("zero_block") and case["kind"] == "lpr":
+        v = "lpr_case_ok_x %s %s %s %s" % (name, C.fl(eps), C.fl(rtol), C.fmat(rec["lpr"]))
+    elif case.get("zero_block"):
+        v = "cpr_case_ok_x %s %s %s %s %s %s" % (
+            name, C.natlist(case["comp_dims"]), C.fl(eps), C.fl(rtol), C.fmat(rec["cpr"]), lcpr_txt)
     elif case["kind"] == "lpr":
         v = "lpr_case_ok %s %s %s %s %s %d%%nat %s" % (
             name, C.flist(h["sv"]), C.fl(eps), C.fl(rtol), C.fmat(rec["lpr"]), rec["rank_diff"], gated)
     else:
         v = "cpr_case_ok %s %s %s %s %s %s %s %d%%nat %s" % (
             name, C.natlist(case["comp_dims"]), C.flist(h["sv"]), C.fl(eps), C.fl(rtol),
-            C.fmat(rec["cpr"]), "[" + "; ".join(C.fmat(a) for a in rec["lcpr"]) + "]",
-            rec["rank_diff"], gated)
-    return name, defn, v
+            C.fmat(rec["cpr"]), lcpr_txt, rec["rank_diff"], gated)
+    # (2) rank from the decomposition hint; the rank / dimension actually used by the implementation
+    mrank = rec.get("mrank")
+    obs_rank = mrank if mrank is not None else d - rec["rank_diff"]
+    obs_dim = rec["rank_diff"] + obs_rank
+    v2 = "rank_case_ok2 %s {| h_U := %s; h_sv := %s; h_Vt := %s |} %s %d%%nat %d%%nat %d%%nat %s" % (
+        name, C.fmat(h["U"]), C.flist(h["sv"]), C.fmat(h["Vt"]), C.fl(SVD_TOL),
+        max(rec["rank_diff"], 0), max(obs_rank, 0), max(obs_dim, 0), gated)
+    if rec["rank_diff"] < 0 or obs_rank < 0:
+        v2 = "false"
+    # (3) intermediate state
+    if rec.get("xprime") is not None:
+        check_inv = (rec.get("xinv") is not None and not case["rank_only"] and not case.get("small_alpha"))
+        v3 = "inter_case_ok %s %s %s %s 0 %s %s" % (
+            name, C.fmat(rec["xprime"]), C.fmat(rec["xinv"]) if check_inv else "[]",
+            C.fl(XP_RTOL), C.fl(eps_impl(h["cond"])), "true" if check_inv else "false")
+    else:
+        v3 = "true"
+    return name, defn, v, v2, v3
 
 
 def parse_float_lists(out):
@@ -185,9 +346,9 @@ def oracle(case, rec):
     numpy.linalg.solve).  Returns None or a message."""
     if "error" in rec:
         return "call raised %s: %s" % (rec["error"], rec.get("error_msg"))
-    tr = [np.array(s, dtype=float) for s in case["train"]]
-    te = [np.array(s, dtype=float) for s in case["test"]]
-    d = tr[0].shape[1]
+    d = len(case["train"][0][0])
+    tr = [np.array(s, dtype=float).reshape(len(s), d) for s in case["train"]]
+    te = [np.array(s, dtype=float).reshape(len(s), d) for s in case["test"]]
     Xa = np.vstack(tr)
     sf = math.sqrt(sum(float(np.mean(Xa[:, j] ** 2)) for j in range(d)))
     Xs = np.array([s.sum(axis=0) / (len(s) * sf) for s in tr])
@@ -203,10 +364,14 @@ def oracle(case, rec):
     rtol = 1e-8 + 1024 * EPS * cond
 
     def rig(x):
+        if not np.any(x):
+            return math.inf          # exactly-zero (masked) row: the code computes 1/0
         q = float(x @ np.linalg.solve(A, x))
         return 1.0 / q
 
     def close(a, b):
+        if math.isinf(b) or math.isinf(a):
+            return a == b
         return abs(a - b) <= rtol * max(abs(a), abs(b))
     idx = np.cumsum([0] + case["comp_dims"])
     if case["kind"] == "lpr":
@@ -216,7 +381,7 @@ def oracle(case, rec):
         for s, a in zip(te, out):
             for x, v in zip(s, a):
                 w = rig(x / sf)
-                if not (v > 0 and math.isfinite(v)):
+                if not (v > 0 and (math.isfinite(v) or math.isinf(w))):
                     return "LPR entry %r not strictly positive and finite" % v
                 if not close(v, w):
                     return "LPR entry %r differs from closed form %r" % (v, w)
@@ -233,7 +398,7 @@ def oracle(case, rec):
                     if len(row) != len(case["comp_dims"]):
                         return "LCPR row has %d entries for %d components" % (len(row), len(case["comp_dims"]))
                     w = rig(x / sf * mask)
-                    if not (row[c] > 0 and math.isfinite(row[c])) or not close(row[c], w):
+                    if not (row[c] > 0 and (math.isfinite(row[c]) or math.isinf(w))) or not close(row[c], w):
                         return "LCPR entry %r differs from closed form %r" % (row[c], w)
                 w = rig(m * mask)
                 if not (cp[si][c] > 0) or not close(cp[si][c], w):
@@ -253,16 +418,90 @@ def shape_key(case):
             tuple(len(s) for s in case["test"]), tuple(case["comp_dims"]))
 
 
+# ---------------------------------------------------------------- metamorphic family
+def _flat(rec, key):
+    v = rec.get(key)
+    if v is None:
+        return None
+    parts = [np.ravel(np.asarray(x, float)) for x in v]
+    return np.concatenate(parts) if parts else np.zeros(0)
+
+
+def metamorphic(ctx, rng, quick, stats):
+    """Clauses 4, 5, 7 on the implementation alone: X -> cX on train and test (c of either
+    sign), a larger alpha, the LPR function against the one-component LCPR, rank_diff of the two
+    public functions.  Tolerances: the closed-form oracle's (1e-8 + 1024*eps*cond)."""
+    c = None
+    for _ in range(100):
+        c = gen_case(rng, quick)
+        if not c["rank_only"] and not c["int_dtype"] and all(len(s) for s in c["test"]):
+            break
+    else:
+        return
+    c = dict(c, kind="cpr")
+    d = len(c["train"][0][0])
+    base = run_impl(c)
+    if oracle(c, base):
+        return                      # reported by the main family's machinery on its own cases
+    h = hints(c)
+    rtol = 1e-8 + 1024 * EPS * h["cond"]
+    stats["metamorphic_cases"] += 1
+
+    def differs(u, v):
+        if u is None or v is None or u.shape != v.shape:
+            return True
+        return bool(np.any(np.abs(u - v) > rtol * np.maximum(np.abs(u), np.abs(v))))
+    # (a) common rescaling
+    f = rng.choice([-1.0, 2.0 ** rng.randint(-20, 20), -(10.0 ** rng.uniform(-2, 2)), 10.0 ** rng.uniform(-3, 3)])
+    cs = dict(c, train=[[[x * f for x in r] for r in st] for st in c["train"]],
+              test=[[[x * f for x in r] for r in st] for st in c["test"]])
+    rs = run_impl(cs)
+    for key in ("cpr", "lcpr"):
+        if "error" in rs or differs(_flat(base, key), _flat(rs, key)):
+            C.report_violation(ctx, "C20 fails on the implementation: %s changes under the common rescaling X -> %r X" % (key.upper(), f),
+                               dict(case=c, observed=base, factor=f, observed_rescaled=rs), found_input=True)
+            return
+    # (b) larger alpha
+    g = 10.0 ** rng.uniform(0.0, 3.0)
+    ca = dict(c, alpha=c["alpha"] * g)
+    ra = run_impl(ca)
+    for key in ("cpr", "lcpr"):
+        lo, hi = _flat(base, key), _flat(ra, key)
+        if "error" in ra or hi is None or lo.shape != hi.shape or np.any(hi < lo * (1 - rtol)):
+            C.report_violation(ctx, "C20 fails on the implementation: %s decreases when alpha grows from %g to %g" % (key.upper(), c["alpha"], ca["alpha"]),
+                               dict(case=c, observed=base, observed_larger_alpha=ra), found_input=True)
+            return
+    # (c) LPR function vs one-component LCPR; (d) rank_diff of the two functions
+    c1 = dict(c, comp_dims=[d])
+    r1 = run_impl(c1)
+    rl = run_impl(dict(c, kind="lpr"))
+    if "error" in r1 or "error" in rl or differs(_flat(r1, "lcpr"), _flat(rl, "lpr")):
+        C.report_violation(ctx, "C20 fails on the implementation: LCPR with a single component differs from LPR",
+                           dict(case=c1, observed=r1, observed_lpr=rl), found_input=True)
+        return
+    if not (r1["rank_diff"] == rl["rank_diff"] == base["rank_diff"]):
+        C.report_violation(ctx, "C20 fails on the implementation: rank_diff differs between the two functions on the same data",
+                           dict(case=c1, observed=r1, observed_lpr=rl), found_input=True)
+        return
+    stats["metamorphic_passed"] += 1
+
+
 # ---------------------------------------------------------------- run
 def run(ctx):
     po = C.proof_obligations(ctx.prop)
-    ncases = 600 if ctx.quick else 8000
+    ncases = 900 if ctx.quick else 8000
     cases, recs, hs = [], [], []
     stats = dict(kinds={}, families={}, d_hist={}, single_env_structs=0, one_component=0,
                  rank_only=0, rank_diff_positive=0, rank_gated=0, errors=0,
-                 log10_alpha_hist={}, log10_cond_hist={})
-    for _ in range(ncases):
-        c = gen_case(ctx.rng, ctx.quick)
+                 log10_alpha_hist={}, log10_cond_hist={}, zero_block_cases=0, inf_entries=0,
+                 empty_test_structures=0, int_dtype=0, intermediate_observed=0,
+                 pinv_value_checked=0, metamorphic_cases=0, metamorphic_passed=0,
+                 xprime_rel_dev_max=0.0)
+    n_zero = 120 if ctx.quick else 800
+    for k in range(ncases + n_zero):
+        c = gen_case(ctx.rng, ctx.quick) if k < ncases else gen_zero_case(ctx.rng, ctx.quick)
+        if c is None:
+            continue
         r = run_impl(c)
         h = hints(c)
         cases.append(c)
@@ -273,21 +512,29 @@ def run(ctx):
         d = len(c["train"][0][0])
         stats["d_hist"][d] = stats["d_hist"].get(d, 0) + 1
         stats["single_env_structs"] += any(len(s) == 1 for s in c["test"])
+        stats["empty_test_structures"] += any(len(s) == 0 for s in c["test"])
+        stats["int_dtype"] += bool(c.get("int_dtype"))
+        stats["zero_block_cases"] += bool(c.get("zero_block"))
         stats["one_component"] += (c["kind"] == "cpr" and len(c["comp_dims"]) == 1)
         stats["rank_only"] += c["rank_only"]
         stats["rank_gated"] += h["rank_near_threshold"]
         stats["errors"] += "error" in r
         if "error" not in r:
             stats["rank_diff_positive"] += r["rank_diff"] > 0
+            for key in ("lpr", "cpr", "lcpr"):
+                fl_ = _flat(r, key)
+                if fl_ is not None and c.get("zero_block"):
+                    stats["inf_entries"] += int(np.isinf(fl_).sum())
         la = int(math.floor(math.log10(c["alpha"])))
         stats["log10_alpha_hist"][la] = stats["log10_alpha_hist"].get(la, 0) + 1
         lc = int(math.floor(math.log10(h["cond"]))) if math.isfinite(h["cond"]) else 99
         stats["log10_cond_hist"][lc] = stats["log10_cond_hist"].get(lc, 0) + 1
-    # small-alpha family (oracle only): rank-deficient training covariance with alpha down to
+    # small-alpha family: rank-deficient training covariance with alpha down to
     # 1e-13 x its largest eigenvalue.  The regularised covariance is then still inverted in full
     # (numpy's pinv cuts at ~1e-15), the closed form holds with a conditioning-scaled tolerance,
     # and the rigidities must not decrease when alpha grows.  Too ill-conditioned for the
-    # hypothesis-residual check of the Coq correspondence, hence compared by the oracle alone.
+    # hypothesis-residual check of the Coq correspondence: outputs are compared by the oracle
+    # alone; since round 3 the recorded Xprime and the rank go through Coq as for every case.
     n_small = 40 if ctx.quick else 400
     stats["small_alpha_cases"] = 0
     for _ in range(n_small):
@@ -312,55 +559,102 @@ def run(ctx):
         else:
             stats["small_alpha_cases"] += 1
             key = "lpr" if c["kind"] == "lpr" else "lcpr"
-            lo = np.concatenate([np.ravel(np.asarray(x, float)) for x in outs_a[0][key]]) if outs_a[0].get(key) is not None else None
-            hi = np.concatenate([np.ravel(np.asarray(x, float)) for x in outs_a[1][key]]) if outs_a[1].get(key) is not None else None
+            lo = _flat(outs_a[0], key)
+            hi = _flat(outs_a[1], key)
             if lo is not None and hi is not None and lo.shape == hi.shape and np.any(hi < lo * (1 - 1e-3)):
                 C.report_violation(ctx, "C20 fails on the implementation: rigidities decrease when alpha grows from %g to %g" % (a1, a1 * 30),
                                    dict(case=dict(c, alpha=a1), observed=outs_a[0], observed_larger_alpha=outs_a[1]),
                                    found_input=True)
+            else:
+                ca = dict(c, alpha=a1)
+                cases.append(ca)
+                recs.append(outs_a[0])
+                hs.append(hints(ca))
+    # metamorphic family (implementation only)
+    for _ in range(150 if ctx.quick else 1500):
+        metamorphic(ctx, ctx.rng, ctx.quick, stats)
+    for i, (r, h) in enumerate(zip(recs, hs)):
+        if "error" not in r and r.get("xprime") is not None:
+            stats["intermediate_observed"] += 1
+            dev = float(np.abs(np.array(r["xprime"]) - h["Xp"]).max() / np.abs(h["Xp"]).max())
+            stats["xprime_rel_dev_max"] = max(stats["xprime_rel_dev_max"], dev)
+            stats["pinv_value_checked"] += (r.get("xinv") is not None and not cases[i]["rank_only"]
+                                            and not cases[i].get("small_alpha"))
     idx = [i for i, r in enumerate(recs) if "error" not in r]
     per = 60 if ctx.quick else 120
     groups = [idx[i:i + per] for i in range(0, len(idx), per)]
     shards = []
     for g in groups:
-        defs, vs, names = [], [], []
+        defs, vs, vs2, vs3, names = [], [], [], [], []
         for i in g:
-            n, dfn, v = case_coq(i, cases[i], recs[i], hs[i])
+            n, dfn, v, v2, v3 = case_coq(i, cases[i], recs[i], hs[i])
             defs.append(dfn)
             vs.append(v)
+            vs2.append(v2)
+            vs3.append(v3)
             names.append(n)
         shards.append(C.SHARD_HEAD + "From Coq Require Import List Bool PrimFloat.\nImport ListNotations.\n"
-                      "From Verif Require Import ListX MExp Rigidity.\nOpen Scope float_scope.\n"
+                      "From Verif Require Import ListX MExp Rigidity RigidityExt.\nOpen Scope float_scope.\n"
                       + "".join(defs)
                       + "Definition verdicts : list bool := [\n %s].\n" % ";\n ".join(vs)
+                      + "Definition verdicts2 : list bool := [\n %s].\n" % ";\n ".join(vs2)
+                      + "Definition verdicts3 : list bool := [\n %s].\n" % ";\n ".join(vs3)
                       + "Eval vm_compute in (failing verdicts).\n"
+                      + "Eval vm_compute in (failing verdicts2).\n"
+                      + "Eval vm_compute in (failing verdicts3).\n"
                       + "Eval vm_compute in (map hyp_resid_f [%s]).\n" % "; ".join(names))
     outs = C.run_shards(ctx.prop, shards, par=2)
     mismatched, corr_broken, resid = [], [], {}
+    which = {}
     for g, (rc, out) in zip(groups, outs):
         lists = C.parse_nat_lists(out)
         fl = parse_float_lists(out)
-        if rc != 0 or len(lists) != 1 or len(fl) != 1 or len(fl[0]) != len(g):
+        if rc != 0 or len(lists) != 3 or len(fl) != 1 or len(fl[0]) != len(g):
             corr_broken.append(out[-1500:])
             continue
-        mismatched += [g[k] for k in lists[0]]
+        for fam, lst in zip(("outputs (lpr_case_ok/cpr_case_ok, Model/Rigidity.v)",
+                             "rank from the SVD hint (rank_case_ok2, Model/RigidityExt.v)",
+                             "intermediate state Xprime / pinv value (inter_case_ok, Model/RigidityExt.v)"), lists):
+            for k in lst:
+                mismatched.append(g[k])
+                which.setdefault(g[k], []).append(fam)
         for i, x in zip(g, fl[0]):
             resid[i] = x
     for i, r in enumerate(recs):
         if "error" in r:
             mismatched.append(i)
+            continue
+        if r.get("inputs_modified"):
+            # not a clause of C20; the model is a function of the VALUES of its arguments, so
+            # a call that writes into the caller's arrays is outside the correspondence
+            stats["inputs_modified"] = stats.get("inputs_modified", 0) + 1
+            if stats["inputs_modified"] <= 5:
+                C.report_violation(ctx, "correspondence broken: the call modified its input arrays (the model is a pure function of its arguments)",
+                                   dict(case=cases[i], observed={k: v for k, v in r.items() if k not in ("xprime", "xinv")}),
+                                   found_input=False)
+        # a non-finite output outside the zero-block family is never accepted (the relative
+        # comparison of Model/Rigidity.v is vacuous against an infinite value)
+        # (rank-only class: alpha below pinv's cut-off, outputs are not compared at all)
+        if not cases[i].get("zero_block") and not cases[i]["rank_only"]:
+            for key in ("lpr", "cpr", "lcpr"):
+                fl_ = _flat(r, key)
+                if fl_ is not None and not np.all(np.isfinite(fl_)):
+                    mismatched.append(i)
+                    which.setdefault(i, []).append("non-finite output")
+                    break
     n_search = 0
     for i in sorted(set(mismatched)):
         msg = oracle(cases[i], recs[i])
         n_search += 1
         eps, rtol = tolerances(hs[i]["cond"])
         rep = dict(case=cases[i], observed=recs[i], cond=hs[i]["cond"], hyp_residual=resid.get(i),
-                   eps=eps, rtol=rtol, correspondence="lpr_case_ok/cpr_case_ok (Model/Rigidity.v)")
+                   eps=eps, rtol=rtol, correspondence="; ".join(which.get(i, ["call raised"])))
         if msg:
             C.report_violation(ctx, "C20 fails on the implementation: " + msg, rep, found_input=True)
         else:
             rep["note"] = "model and implementation disagree but the closed-form oracle accepts the output"
-            C.report_violation(ctx, "correspondence rigidity model vs implementation broken", rep, found_input=False)
+            C.report_violation(ctx, "correspondence rigidity model vs implementation broken: "
+                               + "; ".join(which.get(i, ["?"])), rep, found_input=False)
     for txt in corr_broken:
         C.report_violation(ctx, "correspondence shard did not evaluate", dict(coq_output=txt), found_input=False)
     if not po["ok"]:
@@ -375,32 +669,35 @@ def run(ctx):
     for i in idx:
         c = cases[i]
         k = (c["kind"], shape_key(c), c["alpha"])
-        if k in seen or c["rank_only"]:
+        if k in seen or c["rank_only"] or c.get("small_alpha"):
             continue
         seen.add(k)
         multi = any(len(s) > 1 for s in c["train"]) and any(len(s) > 1 for s in c["test"])
         if len(c["train"]) >= 2 and multi and (c["kind"] == "lpr" or len(c["comp_dims"]) >= 2):
             nontrivial += 1
-    rs = [resid[i] for i in idx if i in resid and not cases[i]["rank_only"]]
+    main = [i for i in idx if i in resid and not cases[i]["rank_only"] and not cases[i].get("small_alpha")]
+    rs = [resid[i] for i in main]
     stats["hyp_residual_max"] = max(rs) if rs else None
     stats["hyp_residual_over_eps_max"] = max(
-        (resid[i] / tolerances(hs[i]["cond"])[0] for i in idx if i in resid and not cases[i]["rank_only"]),
-        default=None)
+        (resid[i] / tolerances(hs[i]["cond"])[0] for i in main), default=None)
     cur, changed = C.drift_report(ctx.prop, ANCHORS)
     cov = dict(obligations=po["obligations"], discharged=po["discharged"], checker_cmd=po["checker_cmd"],
                theorems=po["theorems"], axioms=po["axioms"],
                trusted_base=C.TRUSTED_BASE_COMMON + [
-                   "numpy.linalg.inv / svd as oracles (hints); hypothesis residual re-evaluated in Coq on the model's matrix",
-                   "binary64 rounding: agreement within rtol = 1e-10 + 32*eps*cond entrywise (cond = condition number of XX + alpha I)"],
+                   "numpy.linalg.inv / svd as oracles (hints); hypothesis residuals re-evaluated in Coq on the model's matrix",
+                   "binary64 rounding: agreement within rtol = 1e-10 + 32*eps*cond entrywise (cond = condition number of XX + alpha I); "
+                   "Xprime within 2^-40 (max-norm relative), SVD hint residuals within 2^-40",
+                   "the intermediate state is observed by recording the arguments of numpy.linalg.pinv / matrix_rank during the call"],
                evaluations=len(cases), distinct_nontrivial=nontrivial,
                rule="distinct (shape, alpha) with >=2 training structures, a multi-environment structure in "
                     "train and test, and >=2 components for the component-wise call",
                traces_validated_against_impl=len(idx) - len(set(mismatched)),
-               samples=[dict(case=cases[i], observed=recs[i]) for i in range(min(1, len(cases)))],
+               samples=[dict(case=cases[i], observed={k: v for k, v in recs[i].items() if k not in ("xprime", "xinv")})
+                        for i in range(min(1, len(cases)))],
                distribution=stats, anchor_drift=changed, anchor_hashes=cur, oracle_runs=n_search)
     return C.finish(ctx, "proof", cov, [
-        "alpha > 0 with alpha/lambda_max >= ~1e-10 (pinv = inverse); below that only rank_diff is compared",
-        "every test row and structure mean has a non-zero block in every component (else 1/0)",
+        "alpha > 0 with alpha/lambda_max >= ~1e-10 (pinv = inverse); below that only rank_diff and Xprime are compared",
+        "a test row / structure mean whose component block is not EXACTLY zero has it non-zero with a margin (1e-3 of the largest entry); exactly-zero blocks give +inf on both sides",
         "theorems are over an arbitrary real closed field; binary64 agreement within the stated tolerances"])
 
 
@@ -408,5 +705,16 @@ def replay(ctx, obj):
     c = obj["case"]
     r = run_impl(c)
     msg = oracle(c, r)
+    if not msg and "factor" in obj:
+        f = obj["factor"]
+        cs = dict(c, train=[[[x * f for x in rr] for rr in st] for st in c["train"]],
+                  test=[[[x * f for x in rr] for rr in st] for st in c["test"]])
+        rs = run_impl(cs)
+        h = hints(c)
+        rtol = 1e-8 + 1024 * EPS * h["cond"]
+        for key in ("cpr", "lcpr"):
+            u, v = _flat(r, key), _flat(rs, key)
+            if u is None or v is None or u.shape != v.shape or np.any(np.abs(u - v) > rtol * np.maximum(np.abs(u), np.abs(v))):
+                msg = "%s changes under the common rescaling X -> %r X" % (key.upper(), f)
     print("replay:", msg or "property holds on this input now")
     return 1 if msg else 0
